@@ -1,8 +1,10 @@
 package rules
 
 import (
+	"fmt"
 	"go/ast"
 	"go/types"
+	"os"
 
 	"verif/mlbcheck/chk"
 )
@@ -207,6 +209,9 @@ func c19Debouncer(p *chk.Prog, r *chk.Report) {
 	okArmed, whereA := true, recv.Pos()
 	endsA := g.RegionEnds(cb, recv, armed)
 	for _, e := range endsA {
+		if os.Getenv("MLB_DEBUG_RULE") != "" && e.From != nil && len(e.From.Nodes) > 0 {
+			fmt.Fprintln(os.Stderr, "DEBUG endA", lf.Prog.Rel(e.From.Nodes[len(e.From.Nodes)-1].Pos()), e.OK, e.Break)
+		}
 		if !e.OK {
 			okArmed = false
 			if e.From != nil && len(e.From.Nodes) > 0 {
@@ -233,16 +238,30 @@ func c19Debouncer(p *chk.Prog, r *chk.Report) {
 			rt.Fail("debouncer:timer-cleared-outside-timeout", s.Pos(), "the timer flag is cleared outside the timeout case")
 			continue
 		}
-		rt.Check("debouncer:clear-only-after-success", s.Pos(), g.Dominated(s, okBody), "", "the timer flag is cleared although the reload action failed (no retry without a new submission)")
+		_ = okBody
 	}
-	for _, e := range g.EdgesImplying(g.GErrNil(false, "BODY(C)", chk.H("C", isCfg))) {
-		w := g.BranchAlways(e, lf.IsAssignPat("TO", "time.After(D)", chk.H("D", isParamIdx(f, 3))))
-		// the failing branch never clears the flag and does not fall into the clearing code
-		start := chk.Site{G: g, B: e.B.Succs[e.K], I: -1}
-		w2 := (&chk.Walk{G: g, From: start, Hit: lf.IsAssignPat("T", "false", chk.H("T", isTS)), Stop: func(n ast.Node) bool { return !chk.Encloses(timeout, n) },
-			Cut: func(b *cfgBlock, k int) bool { return chk.BlockOutside(b.Succs[k], timeout) }}).Run()
-		rt.Check("debouncer:failure-rearms-and-keeps-flag", posOf(w, lf), !w.Found && !w2.Found, "", "a failing reload does not re-arm the timer with the retry interval while keeping the timer flag set")
+	// the timeout case ends in one of two states: the reload succeeded and the timer flag is clear; or it failed, the
+	// timer was armed again with the retry interval and the flag is set (the order of clearing, applying and re-arming
+	// is free: the case is analysed path by path with the flag tracked)
+	failBody := g.GErrNil(false, "BODY(C)", chk.H("C", isCfg))
+	rearm := lf.IsAssignPat("TO", "time.After(D)", chk.H("D", isParamIdx(f, 3)))
+	endState := chk.GOr(
+		chk.GAnd(okBody, chk.GBool(false, isTS)),
+		chk.GAnd(failBody, chk.GBool(true, isTS), chk.GEvent(rearm)))
+	tb := caseBlock(g, timeout)
+	okEnd, whereT, nEnd := tb != nil, timeout.Pos(), 0
+	if tb != nil {
+		for _, e := range g.RegionEnds(tb, timeout, endState) {
+			nEnd++
+			if !e.OK {
+				okEnd = false
+				if e.From != nil && len(e.From.Nodes) > 0 {
+					whereT = e.From.Nodes[len(e.From.Nodes)-1].Pos()
+				}
+			}
+		}
 	}
+	rt.Check("debouncer:timeout-case-end-state", whereT, okEnd && nEnd > 0, "", "the timeout case can end with the timer flag clear although the reload action failed (no retry without a new submission), with the flag set after a success, or without the timer re-armed with the retry interval after a failure")
 	// body is called with the variable itself (not a derived value)
 	for _, c := range bodyCalls {
 		_, isID := ast.Unparen(c.Node.(*ast.CallExpr).Args[0]).(*ast.Ident)
@@ -296,7 +315,34 @@ func c19Submit(p *chk.Prog, r *chk.Report) {
 			return f.IsNilLit(rs.Results[len(rs.Results)-1])
 		}
 		w := g.MustPass(chk.Site{}, okRet, false, isSend)
-		x.Check(t.name+":submit-on-success", posOf(w, f), !w.Found, "", t.name+" can return success without submitting the regenerated configuration to the reloader")
+		okSub, wherePos := !w.Found, posOf(w, f)
+		{
+			// decided again path by path: a return hands back nil only behind the send, and whatever else it returns is
+			// not nil unless the send happened (a helper expanded in place returns its error through a variable)
+			okSub = true
+			sent := chk.GEvent(isSend)
+			for _, rt := range g.Returns() {
+				rs := rt.Node.(*ast.ReturnStmt)
+				if len(rs.Results) == 0 {
+					continue
+				}
+				res := rs.Results[len(rs.Results)-1]
+				var need chk.Guard
+				switch {
+				case f.IsNilLit(res):
+					need = sent
+				case f.KnownNonNil(res):
+					continue
+				default:
+					r0 := res
+					need = chk.GOr(sent, g.GExprNil(false, func(e ast.Expr) bool { return f.SameExpr(e, r0) }))
+				}
+				if !g.Dominated(rt, need) {
+					okSub, wherePos = false, rs.Pos()
+				}
+			}
+		}
+		x.Check(t.name+":submit-on-success", wherePos, okSub, "", t.name+" can return success without submitting the regenerated configuration to the reloader")
 		// the mutation precedes createConfig
 		isMut := func(n ast.Node) bool {
 			switch s := n.(type) {
